@@ -59,7 +59,7 @@ func crosstalkScenario(s *Sim, params map[string]string) {
 		g.Offsets["x5"] = map[int32]int64{0: int64(100 + gi), 1: int64(200 + gi)}
 	}
 
-	fmode := t.Intn("cfg", 5)
+	fmode := t.Intn("cfg", 6)
 	if v, ok := params["faults"]; ok {
 		fmt.Sscan(v, &fmode)
 	}
@@ -72,6 +72,10 @@ func crosstalkScenario(s *Sim, params map[string]string) {
 		cl.F = FaultCfg{Slow: 100, CutInResponse: 60, CutAfterApply: 40, CutBeforeApply: 40, SlowMin: 10 * time.Millisecond, SlowMax: 800 * time.Millisecond, APIs: apis}
 	case 4:
 		cl.F = FaultCfg{StaleResponse: Pick(t, "cfg", 100, 300), Slow: 50, SlowMin: 10 * time.Millisecond, SlowMax: 300 * time.Millisecond, APIs: apis}
+	case 5:
+		// the network stalls in the middle of responses, for longer than some
+		// of the deadlines in use
+		cl.F = FaultCfg{Split: Pick(t, "cfg", 150, 400), SplitMin: 5 * time.Millisecond, SplitMax: Pick(t, "cfg", 100*time.Millisecond, 3*time.Second), Slow: 50, SlowMin: 10 * time.Millisecond, SlowMax: 300 * time.Millisecond, APIs: apis}
 	case 3:
 		cl.F = FaultCfg{Slow: 150, Stall: 30, CutInResponse: 50, ErrorCode: 50, SlowMin: 10 * time.Millisecond, SlowMax: 2 * time.Second, StallReset: 3 * time.Second, APIs: apis}
 	}
